@@ -399,9 +399,21 @@ def _slice_examples(check: Check):
   fi = repo.func(MOD, 'slice_examples')
   ff = FuncFlow.of(repo, fi)
   p_ex, p_idx = fi.positional_params[:2]
-  ok = False
+  ok = None
   for _, rv in ff.returns():
-    if isinstance(rv, ast.DictComp) and txt(rv.key) == 'k' and txt(rv.value) == f'v[{p_idx}]' and txt(rv.generators[0].iter) == f'{p_ex}.items()':
-      ok = True
+    for v in (ff.expand(rv) if rv is not None else []):
+      if isinstance(v, ast.DictComp) and len(v.generators) == 1 and isinstance(v.generators[0].target, ast.Tuple) and len(
+          v.generators[0].target.elts) == 2 and txt(v.generators[0].iter) == f'{p_ex}.items()':
+        kn, vn = [txt(t) for t in v.generators[0].target.elts]
+        ok = txt(v.key) == kn and txt(v.value) == f'{vn}[{p_idx}]' and not v.generators[0].ifs
+  if ok is None:
+    # explicit loop: for k, v in examples.items(): out[k] = v[index]
+    for n in ff.cfg.nodes:
+      if n.kind == 'for' and txt(n.ast.iter) == f'{p_ex}.items()' and isinstance(n.ast.target, ast.Tuple) and len(n.ast.target.elts) == 2:
+        kn, vn = [txt(t) for t in n.ast.target.elts]
+        stores = [st for st in n.ast.body if isinstance(st, ast.Assign) and isinstance(st.targets[0], ast.Subscript)]
+        if len(stores) == 1 and len(n.ast.body) == len([st for st in n.ast.body if not (isinstance(st, ast.Expr) and isinstance(st.value, ast.Constant))]):
+          st = stores[0]
+          ok = txt(st.targets[0].slice) == kn and txt(st.value) == f'{vn}[{p_idx}]' and len(n.ast.body) == 1
   check.ob('R-SIB.view', fi, '{k: v[index] for k, v in examples.items()}', ok,
            'every feature is sliced with the same index (rows stay aligned across features, order preserved)')
